@@ -26,6 +26,7 @@ def check(chk):
     r63(chk, m)
     r64_r66(chk, m)
     r65(chk, m)
+    r67(chk, m)
     chk.decline('agreement of the derived views with a list model for every history (runtime); decided are the structural '
                 'preconditions: one owner of the child list, both links set by the adders, identity-based location')
 
@@ -254,6 +255,74 @@ def r63(chk, m):
         chk.decide(R, '%s of %s among [t1, b, t2, c] (t1 == t2)' % (name.strip('_'), which), got, {('return', want)},
                    '%s(%s) with children [t1, b, t2, c] where t1 and t2 compare equal gives %s; expected %s (the position must be found by identity)'
                    % (name, which, sorted(got), want), chk.where(fn))
+
+
+def r67(chk, m):
+    from . import domheap as D
+    R = chk.rule('R6.7', 'the child list and the name search on the heap: the child list of an element whose content is its `self` '
+                 'argument is that argument itself (the same object, also while it is still empty), a missing argument gives a fresh '
+                 'list that is remembered; the search by name from an ancestor finds every element of that name below it, in document '
+                 'order, also inside the argument fragments of an element that has no children of its own', 5)
+    Node = m.cls(DOM, 'Node')
+    getter = Node.properties.get('childNodes', {}).get('get')
+    need(getter is not None, 'Node.childNodes getter not found')
+    chk.analysed(getter)
+    for label, make in (('an empty fragment as `self` argument', lambda d: d.frag('content', [])),
+                        ('a fragment with one child', lambda d: d.frag('content', [d.elem('x')])),
+                        ('an empty list as `self` argument', lambda d: []),
+                        ('no `self` value (None)', lambda d: None)):
+        d = D.Dom(m)
+        content = make(d)
+        e = d.elem('e', childlist=False)
+        e.attrs['attributes'] = {'self': content}
+        e.attrs['__closed'] = True
+        key = 'childNodes with %s' % label
+        try:
+            outs = D.run(m, getter, {'self': e, '__e': e, '__content': content})
+        except D.Imprecise as ex:
+            chk.undecided(R, key, str(ex), chk.where(getter))
+            continue
+        got = set()
+        for k2, s2, v in outs:
+            c2, e2 = s2.env['__content'], s2.env['__e']
+            if k2 != 'return':
+                got.add('%s %s' % (k2, v))
+            elif c2 is None:
+                got.add('a fresh list, remembered' if isinstance(v, list) and v == [] and e2.attrs.get('_dom_childNodes') is v else 'returns %r' % (v,))
+            else:
+                got.add('the argument itself, remembered' if v is c2 and e2.attrs.get('_dom_childNodes') is c2 else
+                        ('another object (%s)' % (D.label_of(v) if isinstance(v, (A.Obj, A.TextObj)) else repr(v))))
+        want = 'a fresh list, remembered' if content is None else 'the argument itself, remembered'
+        chk.decide(R, key, got, {want}, 'the child list of an element with %s is %s; expected %s - children added later would be missing from '
+                   'the argument (and from the source, the XML and clones)' % (label, sorted(got), want), chk.where(getter))
+    fn = m.module(DOM).functions.get('_getElementsByTagName')
+    need(fn is not None, '_getElementsByTagName not found')
+    chk.analysed(fn)
+    d = D.Dom(m)
+
+    Element = m.cls(DOM, 'Element')
+    Fragment = m.cls(DOM, 'DocumentFragment')
+
+    def el(label, tag, kids=(), attributes=None):
+        e = d.elem(label, list(kids))
+        e.cls = Element
+        e.attrs['tagName'] = tag
+        e.attrs['attributes'] = attributes
+        return e
+    t_attr = el('target-in-title', 'math')
+    title = d.frag('title', [d.text('tt', 'One '), t_attr])
+    title.cls = Fragment
+    leaf = el('section-without-children', 'section', [], {'title': title})
+    t_deep = el('target-deep', 'math')
+    root = el('root', 'document', [el('first', 'par', [el('target-first', 'math')]), leaf, el('last', 'par', [el('group', 'bgroup', [t_deep])])])
+    try:
+        outs = D.run(m, fn, {'self': root, 'tagname': 'math'}, filt=lambda fname, node, info: True)
+        got = {(k2, ' '.join(D.label_of(x) for x in v) if isinstance(v, list) else repr(v)) for k2, s2, v in outs}
+        chk.decide(R, 'getElementsByTagName from the root', got, {('return', 'target-first target-in-title target-deep')},
+                   'searching `math` below root[par[math] section(title: math) par[group[math]]] gives %s; expected the three elements in document order'
+                   % sorted(got), chk.where(fn))
+    except D.Imprecise as ex:
+        chk.undecided(R, 'getElementsByTagName from the root', str(ex), chk.where(fn))
 
 
 def r64_r66(chk, m):
